@@ -66,8 +66,8 @@ fn build(f: &Fx, thorough: bool) -> Vec<Call> {
     // ---- exp / ln on the magnitude grid
     for e in e_lo..=e_hi {
         for (i, m) in mantissas(e).into_iter().enumerate() {
-            // quick tier: at 10^5 and 10^6 only the mantissas 1 and 1.0..01 (results have 10^5..10^6 digits)
-            if !thorough && e >= 5 && !(i == 0 || i == 6) {
+            // quick tier: at 10^6 only the mantissas 1 and 1.0..01 (results have 10^5..10^6 digits)
+            if !thorough && e >= 6 && !(i == 0 || i == 6) {
                 continue;
             }
             calls.insert(Call::Exp(m.clone()));
@@ -91,8 +91,12 @@ fn build(f: &Fx, thorough: bool) -> Vec<Call> {
                 calls.insert(Call::Ln(v));
             }
             for lit in ["1.5", "2.5", "1.2345678901234567890123456789012345", "9.8765432109876543210987654321098765"] {
+                // lit * 10^e at 34 digits (digits below the last place are cut off)
                 let base = fx::parse_dec(lit, 35);
-                let v = if e + 33 >= 0 { base * ten_pow((e + 33) as u32) } else { continue };
+                let v = if e >= 1 { base * ten_pow((e - 1) as u32) } else { base / ten_pow((1 - e) as u32) };
+                if v.is_zero() {
+                    continue;
+                }
                 calls.insert(Call::Exp(v.clone()));
                 calls.insert(Call::Exp(-v.clone()));
                 calls.insert(Call::Ln(v));
@@ -130,7 +134,8 @@ fn build(f: &Fx, thorough: bool) -> Vec<Call> {
     }
     // ---- pow
     let mut bases: Vec<BigInt> = vec![];
-    let pow_es: &[i32] = if thorough { &[-30, -20, -10, -5, -3, -2, -1, 0, 1, 2, 3, 6] } else { &[-30, -10, -3, -1, 0, 1, 3, 6] };
+    let all_es: Vec<i32> = (-30..=6).collect();
+    let pow_es: &[i32] = if thorough { &all_es } else { &[-30, -10, -3, -1, 0, 1, 3, 6] };
     for &e in pow_es {
         bases.extend(mantissas(e));
     }
@@ -170,7 +175,14 @@ fn build(f: &Fx, thorough: bool) -> Vec<Call> {
             }
         }
     }
-    calls.into_iter().collect()
+    // smallest arguments first: the first witness of a defect is then a small one
+    let mut v: Vec<Call> = calls.into_iter().collect();
+    v.sort_by_key(|c| match c {
+        Call::Exp(x) => (0u8, x.abs(), x.is_negative(), BigInt::zero(), false),
+        Call::Ln(x) => (1, x.abs(), false, BigInt::zero(), false),
+        Call::Pow(x, y) => (2, x.abs(), x.is_negative(), y.abs(), y.is_negative()),
+    });
+    v
 }
 
 struct Done {
@@ -242,11 +254,22 @@ pub fn run(ctx: Ctx) -> ! {
                 Ok(g) => g,
             };
             let matched = got.precision() == 34 && got == dec(&want, 34);
-            let got_raw = match raw_of(&got) {
-                Ok(r) => Some(r),
-                Err(e) => {
-                    sink.push(("readback:display".to_string(), format!("result of {} cannot be read back: {e}", call.name()), call.json()));
-                    None
+            // When pallas' value equals the reference (PartialEq on the stored integer) its
+            // raw integer is known without going through Display; only a differing value has
+            // to be read back from its printout (validated inside raw_of).
+            let got_raw = if matched {
+                Some(want.clone())
+            } else {
+                match catch(|| raw_of(&got)) {
+                    Ok(Ok(r)) => Some(r),
+                    Ok(Err(e)) => {
+                        sink.push(("readback:display".to_string(), format!("result of {} cannot be read back: {e}", call.name()), call.json()));
+                        None
+                    }
+                    Err(p) => {
+                        sink.push(("readback:display".to_string(), format!("printing the result of {} panicked: {} at {}", call.name(), p.message, p.location), call.json()));
+                        None
+                    }
                 }
             };
             if !matched {
@@ -398,7 +421,7 @@ pub fn run(ctx: Ctx) -> ! {
     let cov = cov! {
         "evaluations" => calls.len(),
         "distinct_nontrivial" => nontrivial,
-        "rule" => "evaluation = one FixedDecimal::{exp,ln,pow} call on a distinct argument (set-deduplicated). exp/ln: mantissas {1,2,3,5,7,9.99..9,1.00..01} x 10^e, e=-30..6 (exp both signs; quick tier keeps only mantissas 1 and 1.0..01 at e>=5), 0/1/e/e^k (k=-3..3) and +-1,+-2 ulp neighbours, leader-election shapes x=-sigma*ln(1-f). pow: bases from the same families x 23 exponents (0, +-1ulp .. +-10), negative bases x 11 integral exponents. non-trivial = the reference computation took at least one series / continued-fraction step (not a constant shortcut) and pallas returned a value",
+        "rule" => "evaluation = one FixedDecimal::{exp,ln,pow} call on a distinct argument (set-deduplicated). exp/ln: mantissas {1,2,3,5,7,9.99..9,1.00..01} x 10^e, e=-30..6 (exp both signs; quick tier keeps only mantissas 1 and 1.0..01 at e=6), 0/1/e/e^k (k=-3..3) and +-1,+-2 ulp neighbours, leader-election shapes x=-sigma*ln(1-f). pow: bases from the same families x 23 exponents (0, +-1ulp .. +-10), negative bases x 11 integral exponents. non-trivial = the reference computation took at least one series / continued-fraction step (not a constant shortcut) and pallas returned a value",
         "samples" => samples,
         "calls_per_function" => per_fn,
         "bit_identical_to_reference" => matched,
